@@ -185,3 +185,5 @@ INFO = dict(
     outside=["pairs outside the catalogue", "infinitely many contributing inputs (except the prefix transducer, C03)"],
     assumptions=["weights >= 0", "pivots > 0"],
 )
+
+INFO["technique"] = 'symbolic execution of cfg@fst / fst@cfg / cfg@string / truncate_length with z3 real weights; composed grammar evaluated by the oracle; z3 proves sum_x G(x)T(x,y) identity; bounded'
